@@ -432,11 +432,11 @@ func gen(f vh.Flags, r *vrand.R, emit func(In)) {
 	for k := 0; k < nc; k++ {
 		var n int
 		switch x := r.Intn(100); {
-		case x < 35:
+		case x < 40:
 			n = r.Range(0, 12)
-		case x < 70:
+		case x < 75:
 			n = r.Range(8, 40)
-		case x < 92:
+		case x < 95:
 			n = r.Range(30, 100)
 		default:
 			n = r.Range(100, 300)
